@@ -113,6 +113,7 @@ class Model(object):
     inv = self.inv[name] = self.inv.get(name, 0) + 1
     self.invocations.append((name, inv))
     if not self._td_ctx and self._point('body'):
+      self.abort_killed = (name, inv)
       self.records.append((name, 'ERROR', S.name if S is not None else None, 'KILLED'))
       return 'EXC:KILLED', True
     beh = ph['beh'][min(inv - 1, len(ph['beh']) - 1)]
@@ -453,7 +454,7 @@ class Model(object):
     return out
 
 
-def abort_variants(spec, limit=400):
+def abort_variants(spec, limit=400, with_origins=False):
   """All invocation sequences a single abort can legitimately produce.
 
   Returns (set of tuples, number of points).  The abort-free sequence is
@@ -461,10 +462,18 @@ def abort_variants(spec, limit=400):
   """
   base = Model(spec).run()
   out = {tuple(base.invocations)}
+  origins = {tuple(base.invocations): [('none', None)]}
   n = min(base.points, limit)
   for k in range(n):
     m = Model(spec)
     m.abort_at = k
     m.run()
-    out.add(tuple(m.invocations))
+    inv = tuple(m.invocations)
+    out.add(inv)
+    # where the abort landed: ('body', invocation that was killed) or ('prebody', None)
+    kind = getattr(m, 'abort_kind', None)
+    killed = getattr(m, 'abort_killed', None)
+    origins.setdefault(inv, []).append((kind, killed))
+  if with_origins:
+    return out, base.points, origins
   return out, base.points
